@@ -28,6 +28,7 @@ THEOREMS = {
         "Dawgs.C13.Props.c13_full",
         "Dawgs.C13.Props.c13_full_old_refuted",
         "Dawgs.C13.Props.api_complete",
+        "Dawgs.C13.Props.snapshot_returns_private_copy",
         "Dawgs.C13.Props.commutative_contains",
     ],
     "Dawgs.Props.C13Conc": [
@@ -130,13 +131,14 @@ SPEC = {
     "extra_coverage": race_stress,
     "rule": "cases = (a) all 8 ordered receiver/operand pairings of {b32,b64,ts32,ts64} x 4 ops on fixed boundary sets, self operands, non-duplex "
             "operands; (b) exhaustive: every receiver/operand subset pair of a 5 (quick) / 7 (thorough) value universe spanning 3 containers and the "
-            "2^32 boundary x {And,AndNot} fallback; (c) random histories (6-20 ops, 3-5 named providers, values a*2^16+b / a*2^32+b, dense runs "
+            "2^32 boundary x {And,AndNot} fallback; (c) random histories (6-20 ops, 3-5 named providers, values a*2^16+b / a*2^32+b plus, in EVERY suite and for receiver and operand "
+            "alike, the boundary alphabet 0, 2^16-1, 2^16, 2^16+1, 2^31 or 2^32-1/2^32/2^32+1, 2^63-1/2^63, max-1, max of the width; dense runs "
             "4095..5000 around the array/bitmap container threshold) from splitmix64(VERIF_SEED); (d) x13: full 2^16 chunks (run containers) and the "
             "aftermath of the native Xor, monitor only; (e) conc13: 2-8 goroutines on one wrapper, order-independent mixes. A case is non-trivial when "
             "a binary operation returned with a non-empty receiver or operand, or a deadlock/panic/concurrent run was observed; distinct = distinct "
             "op-line sequences (sha1)",
     "expected_branches": ["path.native", "path.fallback", "path.non-duplex-operand", "operand.self.b32", "operand.self.b64",
-                          "abba.returned", "pairs.runs", "op.comm", "gen.heap_cases", "op.toids", "op.kindor", "toidsrace.runs", "caddrace.runs", "op.eachcall.ts32/ts32", "op.eachcall.ts64/ts64", "operand.self.ts32", "operand.self.ts64", "gen.dense_run", "gen.exhaustive_cases", "gen.run_cases", "gen.alias64_cases",
+                          "abba.returned", "pairs.runs", "op.comm", "gen.heap_cases", "op.toids", "op.kindor", "op.opprivate", "fillrace.runs.or", "fillrace.runs.xor", "toidsrace.runs", "caddrace.runs", "op.eachcall.ts32/ts32", "op.eachcall.ts64/ts64", "operand.self.ts32", "operand.self.ts64", "gen.dense_run", "gen.exhaustive_cases", "gen.run_cases", "gen.alias64_cases",
                           "conc.runs", "pair.and.b32/ts32", "pair.and.ts32/ts32", "pair.and.b64/ts64", "pair.and.ts64/ts64",
                           "pair.xor.ts64/b64", "pair.or.ts32/b32"],
     "trusted_base": ["RoaringBitmap v2.19.0 native operations assumed to be exact sets (Add, Remove, Contains, Or, And, AndNot, Clone, Clear, "
